@@ -268,11 +268,14 @@ PROPERTIES["C25"] = {
           bounds=f"local node, seed set (any subset of 4 nodes), one optional extra candidate (any node) and replication factor symbolic; {n.replace('_', ' ')} of next_node / ready / next_fetch / fetch_complete with a symbolic success-or-failure result")
         for n, t in (("one_round", Q), ("two_rounds", T), ("three_rounds", T))
     ] + [
+        H("c25_fetcher_never_counts_local", "shadow_sync", "verif_kani", "shadow_sync", tiers=Q, covers=1, stubs=_S25 + ["VecDeque -> 6-slot queue model (vcoll)", "FetchResults / FetchResult / Address -> models in the shim"], timeout={"quick": 1800, "thorough": 5400},
+          functions=["node::sync::fetch::Fetcher::{new,fetch_complete,finished,progress,is_target_reached,success_counts}"],
+          bounds="symbolic configuration as above; a successful result is reported for the local node: it is not counted in the progress and completes the target only if the target asks for nothing"),
         H("c25_fetcher_result_before_fetch", "shadow_sync", "verif_kani", "shadow_sync", tiers=Q, covers=1, stubs=_S25 + ["VecDeque -> 6-slot queue model (vcoll)", "FetchResults / FetchResult / Address -> models in the shim"], timeout={"quick": 1800, "thorough": 5400},
           functions=["node::sync::fetch::Fetcher::{new,next_node,ready_to_fetch,fetch_failed,next_fetch,include_node}"],
           bounds="symbolic configuration as above; two candidates taken and made ready, the first fails before it is fetched, then two next_fetch calls: no node with a result (and not the local node) is handed out"),
     ],
-    "outside": ["the Fetcher is driven the documented way only (next_node -> ready_to_fetch -> next_fetch -> fetch_complete): results for nodes that were never handed out (local node, duplicates) are not fed to it",
+    "outside": ["duplicate results for the same remote node and results for nodes that were never candidates are not fed to the Fetcher (the real FetchResults list counts every entry)",
                 "radicle::node::{FetchResults, FetchResult, Address} are models in the shim (FetchResults keeps first result + counts per node), not /repo's code",
                 "more than 4 nodes / more than 3 results; FetcherConfig::private"],
     "assumptions": ["reference target: every preferred seed synced AND distinct synced nodes >= replication bound (upper bound of a range, else lower bound), replication factor clamped to the number of nodes to sync at construction"],
